@@ -103,6 +103,18 @@ class ExprMixin:
         raise Unsupported('symbolic set literal')
 
     def ev_Dict(self, e, fr):
+        if len(e.keys) >= 1 and e.keys[-1] is None and all(k is not None for k in e.keys[:-1]):
+            d = self.unwrap(self.ev(e.values[-1], fr), e)
+            if isinstance(d, VBox) and d.kind == 'dict':
+                # {k1: v1, ..., **d} with a symbolic dict d: the entries of d win (python: later entries override)
+                has, val = d.term, d.vsort
+                for kn, vn in zip(e.keys[:-1], e.values[:-1]):
+                    k_ = self.zs.lift(self.unwrap(self.ev(kn, fr), e), has.sort().domain())
+                    v_ = self.zs.lift(self.unwrap_term(self.ev(vn, fr)), val.sort().range())
+                    val = z3.Store(val, k_, z3.If(z3.Select(has, k_), z3.Select(val, k_), v_))
+                    has = z3.Store(has, k_, True)
+                self.assumptions.add('the ORDER of a dict display {k: v, **d} is not modelled (dicts are unordered maps here)')
+                return VBox('dict', has, d.esort, d.keys, val)
         ks = [self.ev(k, fr) for k in e.keys]
         vs = [self.ev(v, fr) for v in e.values]
         if any(is_sym(k) for k in ks):
@@ -535,6 +547,14 @@ class ExprMixin:
             idx = self.unwrap(idx, node)
         if isinstance(base, PyDict):
             if is_sym(idx):
+                keys = list(base.d)
+                if self.cur_pure():
+                    if not keys:
+                        return Bottom()
+                    res = base.d[keys[-1]]
+                    for k_ in reversed(keys[:-1]):
+                        res = self.ite(self.truth(self.eq(idx, k_)), base.d[k_], res)
+                    return res
                 raise Unsupported('symbolic key into concrete dict')
             if idx not in base.d:
                 raise PyRaise(KeyError, (idx,), node, implicit=True)
@@ -708,14 +728,15 @@ class ExprMixin:
         om = getattr(self.cur_contract, 'opaque', None) or {}
         if attr in om:
             return BoundMethod(base, attr)
+        bt_ = base.term if isinstance(base, VObj) else (base.val.term if isinstance(base, VOpt) and isinstance(base.val, VObj) else base)
         oa = getattr(self.cur_contract, 'opaque_attrs', None) or {}
         if attr in oa:
             S = oa[attr]
             f = self.ufun(f'attr_{attr}', self.zs.zsort(api.Obj), self.zs.zsort(S.inner if isinstance(S, api.Opt) else S))
-            v = self.wrap_sort(f(base.term), S.inner if isinstance(S, api.Opt) else S)
+            v = self.wrap_sort(f(bt_), S.inner if isinstance(S, api.Opt) else S)
             if isinstance(S, api.Opt):
                 nf = self.ufun(f'attr_{attr}_none', self.zs.zsort(api.Obj), z3.BoolSort())
-                return VOpt(nf(base.term), v)
+                return VOpt(nf(bt_), v)
             return v
         raise Unsupported(f'opaque attribute {attr}: declare it under Contract.opaque')
 
